@@ -7,6 +7,7 @@ import (
 	"runtime"
 	"sort"
 	"strings"
+	"runtime/debug"
 	"sync"
 	"sync/atomic"
 	"time"
@@ -592,6 +593,9 @@ var c07MixedKinds = func() []string {
 
 func runC07(c *vk.Ctx) {
 	model.GeoHeavy = !c.Quick()
+	// geo range computations allocate heavily; sixteen of them at once otherwise spend their time queueing
+	// for the start of the next collection
+	debug.SetGCPercent(400)
 	c.Rule("generated corpora (1..40 docs, 3..8 word vocabulary over {a,b,c}, 1..8 segments with pending deletions, merging off) x generated query trees (all leaf kinds, depth <= 3) served in sequence " +
 		"by a current-root reader, a superseded reader and an OpenReader reader, both collectors, every 10th query twice in a row; result ids compared as multisets with an independent evaluator; " +
 		"plus the small scope (assignments of 3 terms to 5 docs in 2 segments x a fixed list of boolean shapes of depth <= 2). " +
